@@ -41,6 +41,7 @@ type srvStep struct {
 	Body       string
 	Think      time.Duration // virtual time before the response headers; aborted when the request context ends
 	Stream     time.Duration // the body only becomes readable this long after the headers
+	Partial    int           // >0: the attempt fails with Err after only this many bytes of the request body were read (connection reset during the upload)
 }
 
 func (s srvStep) String() string {
@@ -50,6 +51,9 @@ func (s srvStep) String() string {
 	}
 	if s.RetryAfter != "" {
 		x += "+RA" + s.RetryAfter
+	}
+	if s.Partial != 0 {
+		x += fmt.Sprintf("/afterReading%d", s.Partial)
 	}
 	if s.Think != 0 {
 		x += fmt.Sprintf("/think%d", int64(s.Think))
@@ -103,6 +107,7 @@ type attemptRec struct {
 	RespBody    *fakeBody
 	Err         error
 	Returned    int64
+	PartialRead bool // the scripted failure came before the whole request body was read
 }
 
 type fakeTransport struct {
@@ -128,6 +133,14 @@ func (t *fakeTransport) RoundTrip(req *http.Request) (*http.Response, error) {
 	k := len(t.recs)
 	t.recs = append(t.recs, rec)
 	step := t.script[min(k, len(t.script)-1)]
+	if req.Body != nil && step.Partial > 0 {
+		part := make([]byte, step.Partial)
+		n, _ := io.ReadFull(req.Body, part)
+		rec.Body, rec.PartialRead = part[:n], true
+		req.Body.Close()
+		rec.Err, rec.Returned = step.Err, vrt.Elapsed()
+		return nil, step.Err
+	}
 	if req.Body != nil {
 		// the server reads the first bytes, is slow (other attempts may start meanwhile), then reads the rest
 		head := make([]byte, 4)
@@ -278,6 +291,8 @@ func (c httpCase) run() func() {
 			rd = bytes.NewReader([]byte(c.body))
 		case "stringsreader":
 			rd = strings.NewReader(c.body)
+		case "bigstream": // a plain stream of 70 000 bytes
+			rd = io.MultiReader(strings.NewReader(c.body[:len(c.body)/2]), strings.NewReader(c.body[len(c.body)/2:]))
 		case "stream":
 			rd = io.MultiReader(strings.NewReader(c.body[:len(c.body)/2]), strings.NewReader(c.body[len(c.body)/2:]))
 		case "seeker-direct":
@@ -398,6 +413,14 @@ func (c httpCase) mergedContext() bool {
 	return reqNonBg && execNonBg
 }
 
+// shortBody renders a request body for a message: whole if short, else length and ends.
+func shortBody(b []byte) string {
+	if len(b) <= 40 {
+		return fmt.Sprintf("%q", b)
+	}
+	return fmt.Sprintf("%d bytes %q...%q", len(b), b[:12], b[len(b)-12:])
+}
+
 func (c httpCase) wantBody() string {
 	if c.bodyKind == "nil" || c.bodyKind == "nobody" {
 		return ""
@@ -427,8 +450,12 @@ func (c httpCase) check(ft *fakeTransport, origHeader http.Header, resp *http.Re
 				return fmt.Sprintf("attempt %d saw header %s=%v, the caller set %v", i, k, r.Header[k], v)
 			}
 		}
-		if r.BodyErr != nil || string(r.Body) != c.wantBody() {
-			return fmt.Sprintf("attempt %d received body %q (err %v), the original body is %q", i, r.Body, r.BodyErr, c.wantBody())
+		if r.PartialRead {
+			if !strings.HasPrefix(c.wantBody(), string(r.Body)) {
+				return fmt.Sprintf("attempt %d received %d bytes that are not the beginning of the original body", i, len(r.Body))
+			}
+		} else if r.BodyErr != nil || string(r.Body) != c.wantBody() {
+			return fmt.Sprintf("attempt %d received body %s (err %v), the original body is %s", i, shortBody(r.Body), r.BodyErr, shortBody([]byte(c.wantBody())))
 		}
 		// the context each attempt runs under carries the caller's values and deadline
 		if strings.Contains(c.reqCtx, "value") && r.CallerVal != "v" {
@@ -502,10 +529,19 @@ func indexOf(rs []*attemptRec, r *attemptRec) int {
 	return 0
 }
 
+// bigBody: 70 000 bytes, no period shorter than the whole (so a truncated or shifted replay is seen)
+var bigBody = func() string {
+	var sb strings.Builder
+	for i := 0; sb.Len() < 70000; i++ {
+		fmt.Fprintf(&sb, "%06d|", i)
+	}
+	return sb.String()[:70000]
+}()
+
 func c18Cases(tier string) []httpCase {
 	var out []httpCase
 	bodies := []struct{ k, b string }{{"nil", ""}, {"nobody", ""}, {"buffer", "hello body"}, {"buffer", ""}, {"bytesreader", "hello body"}, {"stringsreader", "hello body"}, {"stringsreader", ""},
-		{"stream", "hello streamed body"}, {"seeker-direct", "hello body"}, {"seeker-direct", ""}, {"seeker-file", "hello body"}}
+		{"stream", "hello streamed body"}, {"seeker-direct", "hello body"}, {"seeker-direct", ""}, {"seeker-file", "hello body"}, {"bigstream", bigBody}}
 	reqCtxs := []string{"background", "todo", "cancel", "value", "deadline", "value+deadline"}
 	execCtxs := []string{"none", "background", "cancel", "value"}
 	stacks := []string{"none", "retry", "timeout", "hedge", "breaker", "fallback", "retry+timeout", "retry+hedge", "timeout+retry"}
@@ -516,6 +552,9 @@ func c18Cases(tier string) []httpCase {
 		{{Status: 500, Body: "e"}, ok},
 		{{Status: 429, RetryAfter: "1", Body: "slow down"}, ok},
 		{{Status: 503, RetryAfter: "2"}, {Status: 503, RetryAfter: "1"}, ok},
+		// the connection is reset while the request body is still being uploaded; the retry sends it whole
+		{{Err: errors.New("connection reset during upload"), Partial: 6}, ok},
+		{{Err: errors.New("connection reset during upload"), Partial: 66000}, {Status: 503, Body: "x"}, ok},
 		// the response that carries Retry-After is itself slow in coming
 		{{Status: 429, RetryAfter: "1", Body: "slow down", Think: 600 * time.Millisecond}, ok},
 		{{Status: 503, RetryAfter: "1", Think: 1500 * time.Millisecond}, {Status: 429, RetryAfter: "2", Think: 300 * time.Millisecond, Body: "x", Stream: 5 * time.Millisecond}, ok},
@@ -547,6 +586,14 @@ func c18Cases(tier string) []httpCase {
 			for _, sc := range scripts {
 				out = append(out, httpCase{bodyKind: "stream", body: "hello streamed body", reqCtx: "background", execCtx: "none", stack: st, script: sc, via: "roundtripper"})
 				out = append(out, httpCase{bodyKind: "stringsreader", body: "hello body", reqCtx: "value", execCtx: "none", stack: st, script: sc, via: "do"})
+			}
+			// every body kind against a connection reset in the middle of the upload
+			if st == "retry" || st == "retry+timeout" || st == "retry+hedge" {
+				for _, b := range bodies {
+					for _, sc := range scripts[5:7] {
+						out = append(out, httpCase{bodyKind: b.k, body: b.b, reqCtx: "background", execCtx: "none", stack: st, script: sc, via: "roundtripper"})
+					}
+				}
 			}
 			// seekable bodies set directly on the request, under every stack, with a server slow enough for hedge attempts to overlap
 			for _, bk := range []string{"seeker-direct", "seeker-file"} {
@@ -648,6 +695,7 @@ func init() {
 				Cases         int      `json:"cases"`
 				Agreements    int      `json:"agreements"`
 				Disagreements []string `json:"disagreements"`
+				Violations    []string `json:"violations"`
 				Notes         []string `json:"notes"`
 			}
 			if jerr := json.Unmarshal(out, &res); jerr != nil {
@@ -656,7 +704,11 @@ func init() {
 			if len(res.Disagreements) > 0 {
 				return nil, fmt.Sprintf("the fake transport and the real net/http stack disagree: %v", res.Disagreements)
 			}
-			return map[string]any{"crosscheck_real_transport_cases": res.Cases, "crosscheck_agreements": res.Agreements, "crosscheck_notes": res.Notes}, ""
+			extra := map[string]any{"crosscheck_real_transport_cases": res.Cases, "crosscheck_agreements": res.Agreements, "crosscheck_notes": res.Notes}
+			if len(res.Violations) > 0 {
+				extra["violations"] = res.Violations
+			}
+			return extra, ""
 		},
 	})
 }
